@@ -1,0 +1,50 @@
+/***********************************************************************
+ * Verification hooks (only compiled with -DSECP256K1_ZKP_VERIF).       *
+ * One ndjson line per traced call is appended to the file named by    *
+ * $SECP256K1_ZKP_VERIF_TRACE; nothing is emitted if it is unset.      *
+ ***********************************************************************/
+#ifndef SECP256K1_VERIF_HOOKS_H
+#define SECP256K1_VERIF_HOOKS_H
+#ifdef SECP256K1_ZKP_VERIF
+#include <stdio.h>
+#include <stdlib.h>
+#include <string.h>
+
+static FILE *secp256k1_verif_trace_file = NULL;
+static int secp256k1_verif_trace_state = 0; /* 0 = unknown, 1 = on, 2 = off */
+static unsigned long secp256k1_verif_trace_seq = 0;
+
+static FILE *secp256k1_verif_trace_open(void) {
+    if (secp256k1_verif_trace_state == 0) {
+        const char *path = getenv("SECP256K1_ZKP_VERIF_TRACE");
+        secp256k1_verif_trace_state = 2;
+        if (path != NULL && path[0] != 0) {
+            secp256k1_verif_trace_file = fopen(path, "a");
+            if (secp256k1_verif_trace_file != NULL) {
+                secp256k1_verif_trace_state = 1;
+            }
+        }
+    }
+    return secp256k1_verif_trace_state == 1 ? secp256k1_verif_trace_file : NULL;
+}
+
+/* class of a 132-byte secnonce object: 0 = all-zero, 1 = live (magic and non-zero nonces), 2 = anything else, 3 = NULL */
+static int secp256k1_verif_secnonce_class(const unsigned char *data, const unsigned char *magic4) {
+    size_t i;
+    int allzero = 1, kzero = 1;
+    if (data == NULL) return 3;
+    for (i = 0; i < 132; i++) if (data[i] != 0) allzero = 0;
+    if (allzero) return 0;
+    for (i = 4; i < 68; i++) if (data[i] != 0) kzero = 0;
+    if (memcmp(data, magic4, 4) == 0 && !kzero) return 1;
+    return 2;
+}
+
+static int secp256k1_verif_is_zero32(const unsigned char *p) {
+    size_t i;
+    if (p == NULL) return -1;
+    for (i = 0; i < 32; i++) if (p[i] != 0) return 0;
+    return 1;
+}
+#endif /* SECP256K1_ZKP_VERIF */
+#endif /* SECP256K1_VERIF_HOOKS_H */
